@@ -20,7 +20,7 @@
    Before the fix the function was a line scan for the substring `option go_package =`
    (bufio.Scanner lines, strings.Contains): kept as [scan_go_package_orig] with its
    counterexamples (ProtoScan.v, scan_refuted_…).                                               *)
-From Coq Require Import String List Bool Arith Ascii.
+From Coq Require Import String List Bool Arith Ascii NArith.
 From GT Require Export ProtoPath.
 Import ListNotations.
 Local Open Scope string_scope.
@@ -39,6 +39,8 @@ Fixpoint nl_join (l : list string) : string :=
   end.
 Definition pieces (l : list string) : string := String.concat "" l.
 Definition ctl_char (n : nat) : string := String (ascii_of_nat n) EmptyString.
+(* a piece repeated n times (long contents: padding up to a buffer boundary) *)
+Definition repN (n : N) (s : string) : string := N.iter n (fun acc => (s ++ acc)%string) EmptyString.
 
 (* ------------------------------------------------------------------ the line scan before fix C20-go-package-scan *)
 Fixpoint drop_cr (s : string) : string :=
@@ -78,14 +80,15 @@ Inductive lstate : Type :=
 | LStr (q : ascii)            (* inside a string literal opened by q *)
 | LEsc (q : ascii).           (* after a backslash inside a string literal *)
 
+(* character classes on the byte value (binary numbers: files of 100 KB and more are judged) *)
 Definition is_ws (c : ascii) : bool :=
-  let n := nat_of_ascii c in
-  Nat.eqb n 32 || (Nat.leb 9 n && Nat.leb n 13).
+  let n := N_of_ascii c in
+  N.eqb n 32 || (N.leb 9 n && N.leb n 13).
 
 Definition is_idch (c : ascii) : bool :=
-  let n := nat_of_ascii c in
-  (Nat.leb 48 n && Nat.leb n 57) || (Nat.leb 65 n && Nat.leb n 90)
-  || (Nat.leb 97 n && Nat.leb n 122) || Nat.eqb n 95.
+  let n := N_of_ascii c in
+  (N.leb 48 n && N.leb n 57) || (N.leb 65 n && N.leb n 90)
+  || (N.leb 97 n && N.leb n 122) || N.eqb n 95.
 
 Definition is_quote (c : ascii) : bool := Ascii.eqb c """" || Ascii.eqb c "'".
 
@@ -134,7 +137,7 @@ Definition lex_flush (st : lstate) (toks : list token) : list token :=
   end.
 
 Definition lex (s : string) : list token :=
-  let '(st, toks) := lex_from LNormal [] s in rev (lex_flush st toks).
+  let '(st, toks) := lex_from LNormal [] s in rev_append (lex_flush st toks) [].   (* = rev …, linear *)
 
 (* the k-th token of the declaration `option go_package = <string>` *)
 Definition tok_matches (k : nat) (t : token) : bool :=
